@@ -13,6 +13,28 @@ import (
 
 var vErrStream = errors.New("verif: stream broken")
 
+// The hashmail server reports these two conditions in the text of the stream
+// error when a stream is re-opened after a break; the client derives its
+// status from them.
+var (
+	vErrOccupied = errors.New("rpc error: code = Unknown desc = read stream occupied")
+	vErrNotFound = errors.New("rpc error: code = Unknown desc = stream not found")
+)
+
+// recvErr picks the text of a receive-stream failure.
+func (r *vRelay) recvErr() error {
+	if !r.texts {
+		return vErrStream
+	}
+	switch vIntRange("relay_errtext", 0, 2) {
+	case 1:
+		return vErrOccupied
+	case 2:
+		return vErrNotFound
+	}
+	return vErrStream
+}
+
 // vRelay is an in-memory hashmail server: two mailboxes (one per direction)
 // addressed by stream id. Each of its first `budget` operations may fail
 // (stream error on Send or Recv) or silently drop the message, on symbolic
@@ -25,6 +47,8 @@ type vRelay struct {
 	budget int
 	// the faulty window starts after `skip` operations
 	skip int
+	// texts: receive-stream failures carry one of the server's status texts
+	texts bool
 	// relay restart: every stream opened before it fails once
 	restartCh chan struct{}
 	seen      [][]byte
@@ -173,7 +197,7 @@ func (s *vRecvStream) Recv() (*hashmailrpc.CipherBox, error) {
 	}
 	if s.r.fault("recv") == 1 {
 		s.dead = true
-		return nil, vErrStream
+		return nil, s.r.recvErr()
 	}
 	select {
 	case b := <-s.r.chanOf(s.box):
